@@ -48,7 +48,7 @@ CHECKS = {
               "handlers calling SetHeader 0..3 times, optional SendHeader, headers leaving with first message or with the status, late SetHeader, SetTrailer 0..3 times, grpc.SetHeader/SendHeader/SetTrailer in unary handlers, trailers with error returns. "
               "Oracle model.MD (independent join/lower-case/base64 implementation): handler's incoming metadata, Header(), Trailer(), unary InHeader (recording stats handler) and the tap (decoded by the model) all equal the model; response metadata only on the first response envelope. "
               "Non-trivial = a -bin value with NUL or non-UTF-8 bytes, or a key with >=2 values, or >=2 set calls; distinct = canonical case hash."),
-        jobs=[dict(test="TestC04", quick=1600, thorough=50000)],
+        jobs=[dict(test="TestC04", quick=1600, thorough=50000), dict(test="TestC04Foreign", quick=800, thorough=10000, shards=4)],
         floors={"md-nontrivial": 0.3, "hdr-via=sendheader": 0.03, "hdr-via=first-message": 0.05, "hdr-via=with-trailer": 0.05, "unary": 0.1},
         assumptions=COMMON_ASSUMPTIONS,
     ),
